@@ -51,6 +51,7 @@ type mtCtor struct {
 	Params     []string `json:"params"`
 	Variadic   bool     `json:"variadic"`
 	Result     int      `json:"result"`
+	Out        string   `json:"out"` // the Go type T of the core.ZodType[T] the result implements (first result of Parse); "$1" = the last type argument
 }
 
 type methodTable struct {
@@ -62,6 +63,10 @@ type methodTable struct {
 }
 
 type mtInner struct{ A string }
+
+// mtMark instantiates the generic constructors once more, to read off how the output type of the schema depends on
+// the type argument ("[]$1" for gozod.Slice, "map[string]$1" for gozod.Record[string, V], "*$1" for FromStructPtr)
+type mtMark struct{ A string }
 
 // instances of the constructors gozodgen can name (generic ones instantiated; the instantiation does not
 // change parameter kinds that do not mention the type parameter, and result types are keyed by instance)
@@ -76,8 +81,44 @@ func ctorInstances() map[string]any {
 		"Slice":      gozod.Slice[string],
 		"Record":     gozod.Record[string, string],
 		"Lazy":       gozod.Lazy[core.ZodType[any]],
+		// round 4b: the constructors of the repaired writer (typedConstructor, the URL special case)
+		"URL": gozod.URL, "TimePtr": gozod.TimePtr,
+		"StringPtr": gozod.StringPtr, "IntPtr": gozod.IntPtr, "Int8Ptr": gozod.Int8Ptr, "Int16Ptr": gozod.Int16Ptr, "Int32Ptr": gozod.Int32Ptr, "Int64Ptr": gozod.Int64Ptr,
+		"UintPtr": gozod.UintPtr, "Uint8Ptr": gozod.Uint8Ptr, "Uint16Ptr": gozod.Uint16Ptr, "Uint32Ptr": gozod.Uint32Ptr, "Uint64Ptr": gozod.Uint64Ptr,
+		"Float32Ptr": gozod.Float32Ptr, "Float64Ptr": gozod.Float64Ptr, "BoolPtr": gozod.BoolPtr, "Complex64Ptr": gozod.Complex64Ptr, "Complex128Ptr": gozod.Complex128Ptr,
+		"FromStructPtr": gozod.FromStructPtr[mtInner],
+		"SlicePtr":      gozod.SlicePtr[string],
+		"RecordPtr":     gozod.RecordPtr[string, string],
 	}
 }
+
+// the generic constructors instantiated with the marker type
+func markInstances() map[string]any {
+	return map[string]any{
+		"FromStruct": gozod.FromStruct[mtMark], "FromStructPtr": gozod.FromStructPtr[mtMark],
+		"Slice": gozod.Slice[mtMark], "SlicePtr": gozod.SlicePtr[mtMark],
+		"Record": gozod.Record[string, mtMark], "RecordPtr": gozod.RecordPtr[string, mtMark],
+	}
+}
+
+// outPattern: the first result type of the Parse method of the schema a constructor returns
+func outPattern(fn any) string {
+	ft := reflect.TypeOf(fn)
+	if ft.NumOut() == 0 {
+		return ""
+	}
+	m, ok := ft.Out(0).MethodByName("Parse")
+	if !ok || m.Type.NumOut() == 0 {
+		return ""
+	}
+	s := m.Type.Out(0).String()
+	s = strings.ReplaceAll(s, "main.mtMark", "$1")
+	s = strings.ReplaceAll(s, "interface {}", "any")
+	return s
+}
+
+var basicCtorNames = map[string]bool{"String": true, "Int": true, "Int8": true, "Int16": true, "Int32": true, "Int64": true, "Uint": true, "Uint8": true, "Uint16": true,
+	"Uint32": true, "Uint64": true, "Float32": true, "Float64": true, "Bool": true, "Complex64": true, "Complex128": true}
 
 var (
 	litMethod = regexp.MustCompile(`^\.([A-Z][A-Za-z0-9]*)\(`)
@@ -93,6 +134,7 @@ func emittedNames(repo string) (methods, ctors []string) {
 		die("method table: %v", err)
 	}
 	ms, cs := map[string]bool{}, map[string]bool{}
+	ptrSuffix := false
 	ast.Inspect(f, func(n ast.Node) bool {
 		bl, ok := n.(*ast.BasicLit)
 		if !ok || bl.Kind != token.STRING {
@@ -108,11 +150,26 @@ func emittedNames(repo string) (methods, ctors []string) {
 		if strings.HasPrefix(s, ".%s(") { // generateTypedValue: the method name is "Default" / "Prefault"
 			ms["Default"], ms["Prefault"] = true, true
 		}
+		if s == "Ptr()" { // typedConstructor: basicTypeConstructor(base) with "()" replaced by "Ptr()"
+			ptrSuffix = true
+		}
+		for _, pre := range []string{"gozod.RecordPtr", "gozod.SlicePtr"} { // typedConstructor / baseConstructor: prefix swapped in front of the rest of the text
+			if s == pre {
+				cs[strings.TrimPrefix(pre, "gozod.")] = true
+			}
+		}
 		for _, m := range litCtor.FindAllStringSubmatch(s, -1) {
 			cs[m[1]] = true
 		}
 		return true
 	})
+	if ptrSuffix {
+		for c := range cs {
+			if _, ok := basicCtorNames[c]; ok {
+				cs[c+"Ptr"] = true
+			}
+		}
+	}
 	delete(cs, "ZodType")      // a type name (gozod.ZodType[any]), not a constructor
 	delete(cs, "StructSchema") // the composite literal of the template
 	delete(cs, "Struct")       // gozod.Struct[T](…) of the template: typed below as part of the file frame
@@ -191,6 +248,9 @@ func paramKind(t reflect.Type) string {
 	if t == regexpPtr {
 		return "regexp"
 	}
+	if t.Kind() == reflect.Interface && strings.HasPrefix(t.String(), "core.ZodType[") {
+		return "schemaOf" // a schema whose output type is the constructor's last type argument
+	}
 	return "other:" + t.String()
 }
 
@@ -254,6 +314,10 @@ func buildMethodTable(repo string) methodTable {
 		}
 		if c.Params == nil {
 			c.Params = []string{}
+		}
+		c.Out = outPattern(fn)
+		if mk, ok := markInstances()[name]; ok {
+			c.Out = outPattern(mk)
 		}
 		mt.Ctors = append(mt.Ctors, c)
 	}
